@@ -607,3 +607,27 @@ def sp7(P, C):
                  "and the sub-factor's columns are copied by the positions of that one" % (f.render(perm), (st or {}).get("nmethods"), (st or {}).get("postorder")))
     if n == 0:
         raise core.AnalysisBroken("SP-7: no cholmod_l_analyze_p with a permutation found in the fitter")
+
+
+def sp8(P, C):
+    """SP-8: entries are dropped from a system matrix only below machine epsilon."""
+    C.rule("SP-8", "every cholmod_l_drop in the fitter passes DBL_EPSILON (or a smaller literal) as its tolerance, never a tolerance of the "
+           "iteration: the entries of the normal matrix scale with the weights, so a threshold of the size of the solver's stopping tolerance "
+           "removes real couplings from a problem with small weights — the truncated matrix is another problem, or not positive definite", floor=1)
+    n = 0
+    for f in sorted(P.functions.values(), key=lambda g: (g.file, g.line)):
+        if not f.unit.startswith("fitter/"):
+            continue
+        for i, cal in f.calls():
+            if not cal or cal["name"] != "cholmod_l_drop":
+                continue
+            n += 1
+            a = f.strip(f.args(i)[0])
+            macros = f.nodes[a].get("macros") or f.nodes[f.args(i)[0]].get("macros") or []
+            v = f.nodes[a].get("v", f.nodes[a].get("cv"))
+            ok = "DBL_EPSILON" in macros or (f.k(a) == "FloatingLiteral" and isinstance(v, (int, float)) and 0 <= v <= 2.3e-16)
+            C.ob("SP-8", f.name, "drop-tolerance#%d" % n, ok, f.loc(i),
+                 "cholmod_l_drop(%s, ...): machine epsilon" % f.render(a) if ok else
+                 "cholmod_l_drop(%s, ...): the tolerance is not machine epsilon; entries of a system with small weights fall below it" % f.render(a))
+    if n == 0:
+        raise core.AnalysisBroken("SP-8: no cholmod_l_drop call found in the fitter")
